@@ -372,6 +372,24 @@ func init() {
 				j.Remove()
 			}
 		}
+		// Part 3b': wide parents (9 ... 70 children) in which the first, a middle, the last but one and the last child is
+		// written again (alone and with a child of its own), all entry points
+		for _, k := range []int{9, 17, 33, 34, 35, 40, 65, 70} {
+			if !c.Take() || c.Expired() {
+				continue
+			}
+			var sb strings.Builder
+			sb.WriteString("- r\n")
+			for i := 0; i < k; i++ {
+				fmt.Fprintf(&sb, "  - c%02d\n", i)
+			}
+			c.StateN(1)
+			c.Inc("wide_parent_documents")
+			for _, i := range []int{0, k / 2, k - 2, k - 1} {
+				c12One(c, sb.String()+fmt.Sprintf("  - c%02d\n", i), c12Entries, jail)
+				c12One(c, sb.String()+fmt.Sprintf("  - c%02d\n    - g\n  - c%02d\n  - z\n", i, k-1), c12Entries, jail)
+			}
+		}
 		// Part 3c: massive-mode calls of every entry point with the process limited to 1, 2, 3 and 16 processors (worker
 		// pools and hand-overs must not depend on how many there are)
 		for _, procs := range []int{1, 2, 3, 16} {
